@@ -231,15 +231,27 @@ func rangesOff(byChunk map[chunk.Id][]idxCall, counts map[chunk.Id]int) (off int
 
 func sectionWPos(rng *vh.Rng, corpus []wposCase) {
 	sec := res.Section("wpos", "stress",
-		"concurrent writers to ONE partition through partition.Service.Write on the hand-wired service (every TsIndexer.OnWrite call recorded): per chunk the announced ranges must be pairwise disjoint and cover [0, count), and every announced range must hold the records of exactly one Write call (read back with positions). The library returns the chunk's count after releasing the writer lock (Model/WritersPos.lean, not_late_positions_exact); a shifted range is finding F-C01-901 (schedule dependent: seen in about two of three runs of the 32-writer configuration). Quick: the corpus configuration (32 writers x 200 single-event writes with noEvent = true, the pipe worker's form) and 16 x 150 writes with noEvent = false (serialised by the per-partition write lock since /repo 25f9816: must be exact, also the WriteEvent ranges — a failure there is not attributed); thorough: also 32 x 400 single-event writes and 16 x 300 three-event writes over 4000-byte chunks. non-trivial = every run")
+		"concurrent writers to ONE partition through partition.Service.Write on the hand-wired service (every TsIndexer.OnWrite call recorded): per chunk the announced ranges must be pairwise disjoint and cover [0, count), and every announced range must hold the records of exactly one Write call (read back with positions). The library returns the chunk's count after releasing the writer lock (Model/WritersPos.lean, not_late_positions_exact); since /repo 25f9816 + 3e8b3c3 every caller of Service.Write holds a per-partition write lock (regenerated fact writeLockScope = 2) and 0 shifted ranges are expected in every configuration; a shifted range is tagged with the FIXED finding F-C01-901 only when the model says the writers are not under the lock (it was seen in about two of three runs of the 32-writer noEvent configuration before the repair). Quick: the corpus configuration (32 writers x 200 single-event writes with noEvent = true, the pipe worker's form) and 16 x 150 writes with noEvent = false (serialised by the per-partition write lock since /repo 25f9816: must be exact, also the WriteEvent ranges — a failure there is not attributed); thorough: also 32 x 400 single-event writes and 16 x 300 three-event writes over 4000-byte chunks. non-trivial = every run")
 	cases := append([]wposCase{}, corpus...)
 	// writers that publish their events (the RPC ingestor's form): serialised by the write lock, must be exact
 	cases = append(cases, wposCase{MaxChunk: 1 << 26, Writers: 16, Writes: 150, Batch: 1, WithEvent: true})
 	if args.Thorough {
 		cases = append(cases, wposCase{MaxChunk: 1 << 26, Writers: 32, Writes: 400, Batch: 1}, wposCase{MaxChunk: 4000, Writers: 16, Writes: 300, Batch: 3})
 	}
-	for _, c := range cases {
-		runWPos(c, sec)
+	for i, c := range cases {
+		// schedule dependent (about two runs of three showed a shift before the repair): the corpus configuration is tried up
+		// to three times, until a failure shows
+		reps := 1
+		if i < len(corpus) {
+			reps = 3
+		}
+		for r := 0; r < reps; r++ {
+			before := len(res.SpecFailures)
+			runWPos(c, sec)
+			if len(res.SpecFailures) > before {
+				break
+			}
+		}
 	}
 	reapWG.Wait()
 	res.Done(sec)
